@@ -249,11 +249,10 @@ pub fn main(tier: Tier, replay: Option<Value>) -> i32 {
         }
     }
     if tier == Tier::Thorough {
-        // three episodes over the progress points that leave the most state behind
-        let heavy: Vec<usize> = (0..episodes.len()).filter(|a| matches!(episodes[*a].progress, Progress::AllUndrained | Progress::OneBlock)).collect();
-        for &a in &heavy {
-            for &b in &heavy {
-                for &c in &heavy {
+        // every history of three episodes (512 000 histories x 3 dictionary configurations x 84 probe runs)
+        for a in 0..episodes.len() {
+            for b in 0..episodes.len() {
+                for c in 0..episodes.len() {
                     hists.push(vec![a, b, c]);
                 }
             }
@@ -286,7 +285,7 @@ pub fn main(tier: Tier, replay: Option<Value>) -> i32 {
     run.set("transitions", run.get("evaluations"));
     run.set("traces_validated_against_impl", run.get("evaluations"));
     run.set("exhaustive", true);
-    run.set("rule", "states = decoders after every history of <= 2 episodes (thorough: also 3 episodes over the heavy progress points) over (16 setter frames x 5 progress points: header only, one block, all blocks undrained, drained, whole multi-frame call) with 0/1/2 dictionaries registered; setter frames each put one kind of state into the decoder (Huffman tables of both description kinds, FSE / RLE tables per table, offset history, a 64 KiB window of 0xAA, dictionary tables and content, checksum, block counter, single segment) or fail / are rejected at a chosen point; transitions = 28 probes x 3 front ends, including frames that are INVALID on a fresh decoder and become decodable only if that state leaked; oracle = the probe's complete outcome (result and error text, bytes, both checksums, consumed count, blocks_decoded(), content size) equals the outcome on a fresh decoder");
+    run.set("rule", "states = decoders after every history of <= 2 episodes (thorough: every history of 3 episodes) over (16 setter frames x 5 progress points: header only, one block, all blocks undrained, drained, whole multi-frame call) with 0/1/2 dictionaries registered; setter frames each put one kind of state into the decoder (Huffman tables of both description kinds, FSE / RLE tables per table, offset history, a 64 KiB window of 0xAA, dictionary tables and content, checksum, block counter, single segment) or fail / are rejected at a chosen point; transitions = 28 probes x 3 front ends, including frames that are INVALID on a fresh decoder and become decodable only if that state leaked; oracle = the probe's complete outcome (result and error text, bytes, both checksums, consumed count, blocks_decoded(), content size) equals the outcome on a fresh decoder");
     run.sample(json!({"history": ["[huffman table (direct) + RLE symbols for LL/OF/ML] AllUndrained"], "probe": "Repeat mode for table OF in the first block (needs a leaked RLE table)", "expected": "same error as on a fresh decoder"}));
     run.assume("the state after a failed reset is not compared, only the outcome of the next frame");
     run.finish()
